@@ -77,6 +77,16 @@ def missing_source_family(ctx, rng, n):
                 how = "alias/" + slot
             else:
                 victim[slot].append(gone)
+        # ... or the statement that needs it is in the build only as a validation of what was asked for (possibly of a validation)
+        req = None
+        if rng.random() < 0.25:
+            via = victim["outs"][0]
+            for lv in range(rng.randint(1, 2)):
+                sc["sources"]["req%d_%d.c" % (kx, lv)] = "// asks for a validation\n"
+                req = simlib.St("req%d_%d" % (kx, lv), ["o/req%d_%d.o" % (kx, lv)], ins=["req%d_%d.c" % (kx, lv)], vals=[via])
+                sc["stmts"].append(req)
+                via = req["outs"][0]
+            how += "/behind-validation"
         steps, scs = [], []
         if rng.random() < 0.5:
             b = g.build_step(sc)
@@ -85,7 +95,7 @@ def missing_source_family(ctx, rng, n):
             scs.append(copy.deepcopy(sc))
         steps.append({"op": "rm", "path": gone})
         scs.append(copy.deepcopy(sc))
-        ex = {"op": "build", "targets": [victim["outs"][0]] + ([] if rng.random() < 0.5 else [rng.choice(sc["stmts"])["outs"][0]]),
+        ex = {"op": "build", "targets": ([victim["outs"][0]] if req is None else [req["outs"][0]]) + ([] if rng.random() < 0.5 else [rng.choice(sc["stmts"])["outs"][0]]),
               "j": rng.choice((1, 3)), "k": rng.choice((1, 0)),
               "sched": {"mode": "all", "cap": 5, "keep_world": True}, "_missing_source": gone, "_missing_how": how, "_missing_victim": victim["outs"][0]}
         steps.append(ex)
